@@ -118,8 +118,9 @@ def check_inventory(inv, problems, where, obj_spec=None):
         if dg.lower() in lower:
             bad("manifest digest listed twice (case)")
         lower.add(dg.lower())
-        if not isinstance(paths, list) or not paths:
-            bad("manifest entry without paths"); continue
+        if not isinstance(paths, list):
+            bad("manifest entry is not a list of paths"); continue
+        # an empty list is not ruled out by the specification (the digest then names no file at all)
         for p in paths:
             if not isinstance(p, str) or bad_path(p):
                 bad("invalid content path %r" % (p,)); continue
@@ -247,6 +248,11 @@ def check_object(root, strict=True, fixity=True):
     spec = decl[0].split("_")[-1]
     if open(os.path.join(root, decl[0]), "rb").read() != ("ocfl_object_%s\n" % spec).encode():
         problems.append("version declaration content wrong")
+    # links are not allowed anywhere in an object (E090)
+    for d, dirs, files in os.walk(root):
+        for e in dirs + files:
+            if os.path.islink(os.path.join(d, e)):
+                problems.append("symbolic link " + os.path.relpath(os.path.join(d, e), root))
     inv, raw = read_inventory(root, problems, "root")
     if inv is None:
         return problems
@@ -279,7 +285,12 @@ def check_object(root, strict=True, fixity=True):
             problems.append("version directory %s missing" % v); continue
         ventries = sorted(os.listdir(vd))
         for e in ventries:
-            if e not in ("inventory.json", "inventory.json." + alg, cdir) and strict:
+            if e in ("inventory.json", cdir) or e.startswith("inventory.json."):
+                if e.startswith("inventory.json.") and e != "inventory.json." + alg and strict:
+                    problems.append("unexpected entry %s/%s" % (v, e))
+                continue
+            # a file that is not part of the version is forbidden (E015); an extra directory is only discouraged (W002)
+            if strict or not os.path.isdir(os.path.join(vd, e)) or os.path.islink(os.path.join(vd, e)):
                 problems.append("unexpected entry %s/%s" % (v, e))
         vinv_path = os.path.join(vd, "inventory.json")
         if os.path.isfile(vinv_path):
@@ -287,6 +298,7 @@ def check_object(root, strict=True, fixity=True):
             if v == head:
                 if vraw != raw:
                     problems.append("head version inventory differs from the root inventory")
+                check_sidecar(vd, alg, vraw, problems, v)
             else:
                 vp = []
                 try:
